@@ -1,6 +1,8 @@
 \* quick: environment faults (one spurious empty read, one read error, one poll after the end),
 \* the JSON payload set, and termination as a liveness property of the fair specification
 CONSTANTS
+  FixExtractOverflow = TRUE
+  FixFramerError = TRUE
   Lfls = {2}
   HostLfls = {2}
   Endians = {TRUE}
@@ -28,5 +30,5 @@ CONSTANTS
   MaxErr = 1
   AfterDone = 1
 SPECIFICATION FairSpec
-INVARIANTS SinkExact SinkPrefix RoundTrip InRange PosInside NoPanicModuloKnown BuiltinNeverPoisoned MeasureNonNeg
+INVARIANTS SinkExact SinkPrefix RoundTrip InRange PosInside NoPanic ErrorOnlyWhenRefused MeasureNonNeg
 PROPERTIES Progress WProgress Terminates
